@@ -24,6 +24,7 @@ pub enum Hist {
     Incremental,
     AbandonThenRedo,
     AbandonThenOther,
+    DeleteThenAbandonedReadd,
 }
 
 impl Hist {
@@ -36,6 +37,7 @@ impl Hist {
             Hist::Incremental => "updater-incremental",
             Hist::AbandonThenRedo => "abandon-then-redo",
             Hist::AbandonThenOther => "abandon-then-other",
+            Hist::DeleteThenAbandonedReadd => "delete-then-abandoned-readd",
         }
     }
 }
@@ -110,6 +112,41 @@ pub async fn abandon_deletes_then_commit(zone: &Zone, z: &ZoneC, rng: &mut Rng) 
     let s = z.get(&z.apex, T_SOA).ok_or("no soa")?;
     up.apply(ZoneUpdate::Finished(urec(&s.name, T_SOA, s.ttl, &s.rdatas[0]))).await.map_err(|e| format!("Finished: {:?}", e))?;
     Ok(())
+}
+
+/// The zone once held more: extra RRsets at names that keep other data. Their deletion is committed; a later update
+/// adds them again and is abandoned. What a version once deleted must stay deleted.
+pub async fn delete_then_abandoned_readd(z: &ZoneC, rng: &mut Rng) -> Result<Zone, String> {
+    let cuts: Vec<Vec<u8>> = z.names().into_iter().filter(|n| z.is_cut(n)).collect();
+    let mut big = ZoneC { apex: z.apex.clone(), rrsets: z.rrsets.clone() };
+    let mut extras: Vec<RRset> = Vec::new();
+    for n in z.names() {
+        if cuts.iter().any(|c| is_at_or_below(&n, c)) || z.get(&n, T_CNAME).is_some() || z.types_at(&n).is_empty() || z.get(&n, 13).is_some() {
+            continue;
+        }
+        if z.is_apex(&n) || rng.bool() {
+            let r = RRset { name: z.get(&n, z.types_at(&n)[0]).map(|r| r.name.clone()).unwrap_or(n.clone()), rtype: 13, ttl: 120, rdatas: vec![vec![1, b'x', 1, b'y']] };
+            big.insert(r.clone());
+            extras.push(r);
+        }
+    }
+    let zone = build_with_builder(&big)?;
+    let s = z.get(&z.apex, T_SOA).ok_or("no soa")?;
+    {
+        let mut up = ZoneUpdater::<Name<Bytes>>::new(zone.clone()).await.map_err(|e| format!("updater new: {:?}", e))?;
+        for e in &extras {
+            up.apply(ZoneUpdate::DeleteRecord(urec(&e.name, e.rtype, e.ttl, &e.rdatas[0]))).await.map_err(|e| format!("DeleteRecord: {:?}", e))?;
+        }
+        up.apply(ZoneUpdate::Finished(urec(&s.name, T_SOA, s.ttl, &s.rdatas[0]))).await.map_err(|e| format!("Finished: {:?}", e))?;
+    }
+    {
+        let mut up = ZoneUpdater::<Name<Bytes>>::new(zone.clone()).await.map_err(|e| format!("updater new (2): {:?}", e))?;
+        for e in &extras {
+            up.apply(ZoneUpdate::AddRecord(urec(&e.name, e.rtype, e.ttl, &e.rdatas[0]))).await.map_err(|e| format!("AddRecord: {:?}", e))?;
+        }
+        // dropped without Finished: rolled back
+    }
+    Ok(zone)
 }
 
 /// Write the content through the WritableZone node interface into an empty zone.
@@ -225,6 +262,7 @@ async fn build(h: Hist, z: &ZoneC, prev: &ZoneC, rng: &mut Rng, seed: u64) -> Re
             abandon_deletes_then_commit(&zone, z, rng).await?;
             Ok(zone)
         }
+        Hist::DeleteThenAbandonedReadd => delete_then_abandoned_readd(z, rng).await,
     }
 }
 
@@ -234,7 +272,7 @@ fn one_zone(c: &mut Ctx, rt: &tokio::runtime::Runtime, fam: &str, idx: u64) {
     let prev = gen_zone(&mut rng, 9);
     let qnames = query_names(&mut rng, &z);
     let ex = |h: Hist| json!({"history": h.name(), "zone": z.records().iter().map(|(o, t, ttl, d)| format!("{} {} {} {}", w::name_text(o), ttl, t, hex(d))).collect::<Vec<_>>()});
-    let hists = [Hist::Builder, Hist::Text, Hist::UpdaterFull, Hist::WriteIface, Hist::Incremental, Hist::AbandonThenRedo, Hist::AbandonThenOther];
+    let hists = [Hist::Builder, Hist::Text, Hist::UpdaterFull, Hist::WriteIface, Hist::Incremental, Hist::AbandonThenRedo, Hist::AbandonThenOther, Hist::DeleteThenAbandonedReadd];
     for h in hists {
         let built = ctx::catch(|| rt.block_on(build(h, &z, &prev, &mut rng, idx)));
         let zone = match built {
